@@ -1,7 +1,7 @@
 (* Registers of the VM (machine.py: class Registers), name environments, and the
    unit-mode switch.  Shared by the reference semantics and the machine model. *)
 From Coq Require Import ZArith String List Bool PrimFloat.
-From Bardolph Require Import Base.PyFloat Gen.Codes Time.TimeSpec Time.TimePattern
+From Bardolph Require Import Base.PyFloat Gen.Codes Time.TimeSpec Time.TimeCore
   Lang.Value Lang.Units0.
 Open Scope string_scope.
 Open Scope list_scope.
